@@ -1025,7 +1025,7 @@ func (c *Compiler) compileObjectCall(node *ast.ObjectCall) error {
 	err := c.compile(node.Object())
 	if err == nil {
 		name := method.Function().String()
-		c.emit(op.LoadAttr, c.current.addName(name))
+		c.emit(op.LoadAttr, c.name(name))
 		err = c.compileArgs(args)
 	}
 	c.current.pipeActive = pipeActive
@@ -1044,7 +1044,7 @@ func (c *Compiler) compileGetAttr(node *ast.GetAttr) error {
 	if err := c.compile(node.Object()); err != nil {
 		return err
 	}
-	idx := c.current.addName(node.Name())
+	idx := c.name(node.Name())
 	c.emit(op.LoadAttr, idx)
 	return nil
 }
@@ -1516,7 +1516,7 @@ func (c *Compiler) compileSetAttr(node *ast.SetAttr) error {
 			return err
 		}
 		c.emit(op.Copy, 0)
-		idx := c.current.addName(node.Name())
+		idx := c.name(node.Name())
 		c.emit(op.LoadAttr, idx)
 
 		// 2. Load the RHS value
@@ -1552,7 +1552,7 @@ func (c *Compiler) compileSetAttr(node *ast.SetAttr) error {
 	if err := c.compile(node.Object()); err != nil {
 		return err
 	}
-	idx := c.current.addName(node.Name())
+	idx := c.name(node.Name())
 	c.emit(op.StoreAttr, idx)
 	return nil
 }
@@ -2139,7 +2139,7 @@ func (c *Compiler) compilePartialObjectCall(node *ast.ObjectCall) error {
 		return fmt.Errorf("compile error: invalid call expression")
 	}
 	name := method.Function().String()
-	c.emit(op.LoadAttr, c.current.addName(name))
+	c.emit(op.LoadAttr, c.name(name))
 	args := method.Arguments()
 	argc := len(args)
 	if argc > MaxArgs {
@@ -2150,6 +2150,17 @@ func (c *Compiler) compilePartialObjectCall(node *ast.ObjectCall) error {
 	}
 	c.emit(op.Partial, uint16(len(args)))
 	return nil
+}
+
+// name returns the operand that refers to an attribute name in the code
+// being compiled.
+func (c *Compiler) name(name string) uint16 {
+	index, ok := c.current.addName(name)
+	if !ok {
+		c.failure = fmt.Errorf("compile error: number of attribute names exceeded limits")
+		return 0
+	}
+	return index
 }
 
 func (c *Compiler) constant(obj any) uint16 {
